@@ -20,7 +20,7 @@
    C20_equals_numeric, C20_equals_kinds, C20_equals_refl_scalars) -- eval_spec uses those very
    functions. *)
 (* source tie by translation: the lemmas of these files are obligations of this property *)
-From Soy Require Import Proofs.SourceTieExpr Proofs.SourceTieQuote Proofs.SourceTieData Proofs.SourceTieHtml.
+From Soy Require Import Proofs.SourceTieExpr Proofs.SourceTieQuote Proofs.SourceTieData Proofs.SourceTieHtml Proofs.SourceTieScope Proofs.SourceTieUnquote.
 From Soy Require Import Model.Bytes Model.Num Model.Values Model.Outcome Model.Ast Model.Interp
   Model.Escape Model.Token Model.ExprParser Model.ExprTrans Spec.Expr Spec.ExprSyntax Generated.Tables
   Proofs.EvalProofs Proofs.EvalFuncProofs Proofs.EvalMainProofs Proofs.ExprParserRules Proofs.ExprParserProofs Proofs.EvalSyntaxProofs Proofs.EvalTotalProofs.
